@@ -127,6 +127,22 @@ impl U {
             },
         }
     }
+    /// Same slots, the *algebraic* payload alphabet: pairs of equal-length operands whose AND is all
+    /// zero / whose OR is all ones (absorbing elements of the bitwise reducers reached by a partial
+    /// fold), a strictly shorter operand that must still shape the result, explicit zeros of two
+    /// lengths and a longer all-ones operand (Max/Min/Sum saturation).
+    fn algebraic() -> U {
+        let mut u = U::new();
+        u.payloads = vec![
+            vec![0xF0, 0xF0, 0xF0],
+            vec![0x0F, 0x0F, 0x0F],
+            vec![0xFF],
+            vec![0x00, 0x00],
+            vec![0xFF, 0xFF, 0xFF, 0xFF],
+            vec![0x00],
+        ];
+        u
+    }
     fn key(&self, s: Slot) -> EmitKey {
         EmitKey::with_subkey(self.scopes[s.scope], self.rules[s.rule], self.subs[s.sub])
     }
@@ -864,6 +880,7 @@ fn main() {
          Phase A: EVERY slot set of size 0..={k_max} x {fam_n} payload assignments (6 rotations of the payload list over the slots; thorough adds the 6 reflected rotations; injective for k<=6) x EVERY permutation of the emission order x every policy pair (121 when both channels are touched); \
          all observations (finalize channels+errors, emissions digest, v1 frames, v2 packet) must be identical across permutations and equal to a key-order reference fold; digest also under every order of the finalized slice. \
          Phase B: every slot set of size 0..={k_max} x ALL 6^k payload assignments x every policy (same on both channels), emitted in descending slot order (thorough: also ascending, compared with each other) and compared with the order-free reference fold; for reducers with is_commutative() every arrangement of a payload multiset on the keys of a channel must give the same bytes. \
+         Phase B2: phase B again (both emission orders) over an algebraic payload alphabet {{F0F0F0, 0F0F0F, FF, 0000, FFFFFFFF, 00}} (operand pairs whose partial AND/OR reaches the absorbing element before a shorter operand arrives) for sets of 2..=3 slots. \
          Phase C: every slot set of size 1..={k_dup} x every permutation x every (emitted position i, later position j>=i, payload q of 6): re-emitting slot i after position j must be Err(DuplicateEmission) naming that (channel,key) and the finalized result must equal the run without the duplicate. \
          distinct_nontrivial = distinct (slot set, payload assignment) cases in which some channel received >= 2 emissions (order could matter)."
     ));
@@ -944,6 +961,33 @@ fn main() {
     r.counter("phaseB_sets", sets_b.len() as u64);
     r.counter("phaseB_bus_runs", b_runs);
     println!("[C18] phase B done: {} sets, {} bus runs, {:.1}s", sets_b.len(), b_runs, r.elapsed_s());
+
+    // Phase B2: the same algebra sweep over the algebraic payload alphabet (sets of 2..3 slots)
+    {
+        let ua = U::algebraic();
+        let sets_b2 = mc::enumerate::subsets_range(slots_b, 2, k_max.min(3));
+        let mut capped = false;
+        let res: Vec<Option<Acc>> = sets_b2
+            .par_iter()
+            .map(|s| if over(0.9, 1500.0) { None } else { Some(phase_b_item(&ua, s, true)) })
+            .collect();
+        let mut b2_runs = 0;
+        for x in res {
+            match x {
+                Some(a) => {
+                    b2_runs += a.runs;
+                    total.merge(a)
+                }
+                None => capped = true,
+            }
+        }
+        if capped {
+            r.cap_hit("phase B2 stopped by wall cap");
+        }
+        r.counter("phaseB2_sets", sets_b2.len() as u64);
+        r.counter("phaseB2_bus_runs", b2_runs);
+        println!("[C18] phase B2 done: {} sets, {} bus runs, {:.1}s", sets_b2.len(), b2_runs, r.elapsed_s());
+    }
 
     // Phase C
     let sets_c = mc::enumerate::subsets_range(slots_b, 1, k_dup);
